@@ -362,6 +362,24 @@ class Weaver:
                     j += 1
                 pos = st[j].start
             edits.append((pos, pos, '\n' + txt + '        '))
+            # the loop body's braces
+            j = li + 1
+            while j < bc:
+                if st[j].text in ('(', '['):
+                    j = match_index(st, j) + 1
+                    continue
+                if st[j].text == '{':
+                    break
+                j += 1
+            jc = match_index(st, j)
+            if spec_l.get('body_head'):
+                edits.append((st[j].end, st[j].end, '\n' + spec_l['body_head'].strip('\n') + '\n'))
+            if spec_l.get('body_tail'):
+                edits.append((st[jc].start, st[jc].start, '\n' + spec_l['body_tail'].strip('\n') + '\n'))
+            if spec_l.get('before'):
+                edits.append((st[li].start, st[li].start, spec_l['before'].strip('\n') + '\n'))
+            if spec_l.get('after'):
+                edits.append((st[jc].end, st[jc].end, '\n' + spec_l['after'].strip('\n') + '\n'))
         # anchored insertions
         for anchor, ins in before:
             p = _unique(body, anchor, q, st[bo].start)
